@@ -57,11 +57,13 @@ class Rec:
     pass
 
 
-def run_instrumented(P, cfg, jac="callable", stop_at=None, use_callback=True, extra=None, fwrap=None, scribble=False):
+def run_instrumented(P, cfg, jac="callable", stop_at=None, use_callback=True, extra=None, fwrap=None, scribble=False, workbuf=False):
     """Run the implementation on problem P with configuration cfg, logging every user call.
     stop_at: callback returns True at that (1-based) call. extra: further keyword arguments.
     scribble: the user's functions overwrite the array they were handed after using it (a legitimate thing for a
-    user function to do: the package must hand them copies, the model's values cannot be disturbed by it)."""
+    user function to do: the package must hand them copies, the model's values cannot be disturbed by it).
+    workbuf: the user's gradient returns the SAME preallocated array on every call, refilled in place (what adjoint / simulation
+    codes do): the package must not keep a reference to what a callable returned."""
     from lbfgsb import minimize_lbfgsb
 
     R = Rec()
@@ -80,6 +82,11 @@ def run_instrumented(P, cfg, jac="callable", stop_at=None, use_callback=True, ex
         R.glog.append((np.array(x, dtype=float, copy=True), v.copy()))
         if scribble and isinstance(x, np.ndarray) and x.flags.writeable:
             x -= 1.25
+        if workbuf:
+            if getattr(R, "buf", None) is None or R.buf.shape != v.shape:
+                R.buf = np.empty_like(v)
+            np.copyto(R.buf, v)
+            return R.buf
         return v
 
     def cb(xk, state):
